@@ -1,5 +1,6 @@
 //! C12: path hash (JAMCRC of lower-cased bytes) and shader-key hash (CRC-32, init 0, no final xor).
-//! SHA-1 digests are exercised by C10's generator (`FileInfo::new`) and shared.
+//! SHA-1 digests (`sha1 <hex>`) go through `FileInfo::new` on a scratch file; the cases and the
+//! runner are shared with C10 (`c10::sha1_cases`, `c10::sha1_via_fileinfo`).
 #![allow(unused)]
 use crate::util::*;
 use std::io::Write;
@@ -30,6 +31,9 @@ pub fn generate(thorough: bool, seed: u64, out: &mut dyn Write) {
             }
         }
     }
+    // SHA-1: lengths 0..=300, every padding boundary, random lengths, > 2 MiB (shared with C10)
+    let mut rng_sha = Rng::new(seed, "C12-sha1");
+    crate::c10::sha1_cases(&mut rng_sha, thorough, out);
     let n = if thorough { 200_000 } else { 4_000 };
     for i in 0..n {
         let len = match rng.below(10) {
@@ -58,6 +62,9 @@ pub fn run(case: &str, input: &str) -> String {
         return "bad-case".into();
     }
     let Some(bytes) = unhex(f[1]) else { return "bad-case".into() };
+    if f[0] == "sha1" {
+        return crate::c10::sha1_via_fileinfo(&bytes);
+    }
     let Ok(s) = String::from_utf8(bytes) else { return "bad-case".into() };
     match f[0] {
         "jamcrc" => guarded(move || physis::sqpack::SqPackIndex::calculate_partial_hash(&s).to_string()),
